@@ -256,7 +256,7 @@ func (s *envScript) lua() string { return "local H = ...\n" + luaOps(s.Main, "",
 const envPrelude = `
 local prim, nt, maxdepth = ...
 local type, error, setfenv, getfenv = type, error, setfenv, getfenv
-local H = {F = {}, C = {}, T = {}, started = {}, cofn = {}, depth = 0, setfenv = setfenv, getfenv = getfenv}
+local H = {F = {}, C = {}, T = {}, started = {}, cofn = {}, hostco = {}, depth = 0, setfenv = setfenv, getfenv = getfenv}
 H.T[0] = getfenv(0)
 for i = 1, nt do H.T[i] = {} end
 function H.idof(t) for i = 0, nt do if H.T[i] == t then return i end end return -2 end
@@ -283,7 +283,9 @@ function H.coResume(k)
   if c and not H.started[c] and H.depth < maxdepth then
     H.started[c] = true; H.depth = H.depth + 1
     if type(c) == "thread" then
-      local ok, e = prim.resume(c, H.cofn[c], H)
+      -- a thread the host made with NewThread has no body yet: only L.Resume can give it one
+      local resume = H.hostco[c] and prim.hostresume or prim.resume
+      local ok, e = resume(c, H.cofn[c], H)
       if not ok then error(e, 0) end
     else c(H) end
     H.depth = H.depth - 1
@@ -369,17 +371,20 @@ func apiPrims(L *lua.LState, alt bool) *lua.LTable {
 	reg("getCo", func(L *lua.LState) int { L.Push(L.GetFEnv(L.CheckThread(1))); return 1 })
 	reg("create", func(L *lua.LState) int { th, _ := L.NewThread(); L.Push(th); return 1 })
 	p.RawSetString("wrap", L.GetField(L.GetGlobal("coroutine"), "wrap"))
-	reg("resume", func(L *lua.LState) int {
-		st, err, _ := L.Resume(L.CheckThread(1), L.CheckFunction(2), L.Get(3))
-		if st == lua.ResumeError {
-			L.Push(lua.LFalse)
-			L.Push(lua.LString(fmt.Sprint(err)))
-			return 2
-		}
-		L.Push(lua.LTrue)
-		return 1
-	})
+	reg("resume", apiResume)
 	return p
+}
+
+// apiResume(th, fn, h): L.Resume; fn becomes the body if the thread has none yet (made by NewThread)
+func apiResume(L *lua.LState) int {
+	st, err, _ := L.Resume(L.CheckThread(1), L.CheckFunction(2), L.Get(3))
+	if st == lua.ResumeError {
+		L.Push(lua.LFalse)
+		L.Push(lua.LString(fmt.Sprint(err)))
+		return 2
+	}
+	L.Push(lua.LTrue)
+	return 1
 }
 
 func runEnvScript(s *envScript) (res envRun) {
@@ -420,6 +425,7 @@ func runEnvScript(s *envScript) (res envRun) {
 		res.Err = "prelude: " + err.Error()
 		return
 	}
+	prim.(*lua.LTable).RawSetString("hostresume", L.NewFunction(apiResume))
 	prim.(*lua.LTable).RawSetString("emit", L.NewFunction(func(L *lua.LState) int {
 		res.Obs = append(res.Obs, int64(L.CheckNumber(1)))
 		return 0
@@ -499,6 +505,7 @@ func hostOps(L *lua.LState, H *lua.LTable, ops []eop) error {
 				th, _ := L.NewThread()
 				C.RawSetInt(o.A, th)
 				cofn.RawSetH(th, f)
+				tabOf("hostco").RawSetH(th, lua.LTrue)
 			}
 		case "coResume":
 			c := C.RawGetInt(o.A)
